@@ -39,10 +39,22 @@ func runC09(rt *rapid.T, st *stats.Collector) {
 	clientRev, serverRev := drawRevs(rt)
 	comp := drawComp(rt)
 	ncols := rapid.IntRange(1, 3).Draw(rt, "ncols")
+	// One history in sixty has a round of exactly 127..129 or 16383..16385 rows (the counts in the
+	// block header change width there), over one or two plain columns.
+	manyRows := rapid.IntRange(0, 59).Draw(rt, "many-rows") == 0
+	if manyRows {
+		ncols = rapid.IntRange(1, 2).Draw(rt, "ncols-many-rows")
+	}
 	var cols []inputCol
 	zc, prep := false, false
 	for i := 0; i < ncols; i++ {
 		k := gen.DrawKind(rt, "kind")
+		if manyRows {
+			k = gen.ByName[rapid.SampledFrom([]string{"UInt8|X|UInt8", "String|X|String", "UInt64|X|UInt64"}).Draw(rt, "plain-kind")]
+			zc = zc || k.ZeroCopy
+			cols = append(cols, inputCol{name: fmt.Sprintf("c%d", i), kind: k, col: k.New()})
+			continue
+		}
 		switch rapid.IntRange(0, 5).Draw(rt, "prefer-zero-copy") {
 		case 0, 1:
 			var zs []*gen.Kind
@@ -103,7 +115,12 @@ func runC09(rt *rapid.T, st *stats.Collector) {
 		rd := c09round{action: rapid.SampledFrom([]string{"append", "reset-append", "overwrite", "unchanged", "reset-append"}).Draw(rt, "action")}
 		switch rd.action {
 		case "append", "reset-append":
-			rd.rows = drawRows(rapid.IntRange(0, 3).Draw(rt, "n"))
+			n := rapid.IntRange(0, 3).Draw(rt, "n")
+			if manyRows && rapid.IntRange(0, 1).Draw(rt, "this-round") == 0 {
+				n = rapid.SampledFrom([]int{127, 128, 129, 16383, 16384, 16385}).Draw(rt, "row-count")
+				rd.action = "reset-append"
+			}
+			rd.rows = drawRows(n)
 		}
 		rd.ret = "nil"
 		if r == nrounds-1 {
